@@ -320,6 +320,7 @@ class World:
         self.iter_mark = (-1, None)
         self.players = 0
         self.ever_free_boot = False
+        self.persist_expiry_lost = False
         self.disk = {}
         self.last_upg = 0
         self.approvals = []      # free-play flag at the time each pending player add was approved
@@ -420,6 +421,9 @@ class World:
             self.check_units_sane("boot")
         else:
             self.ever_free_boot = True
+            # nothing re-arms the expiry of the persisted credit_units variable in this session
+            # (enable_credit_play is not called): see known finding C20-persist-expiry-lost
+            self.persist_expiry_lost = True
 
     def check_units_sane(self, where):
         """The unit conversion must preserve money: units_per_game * credit_unit == price, every coin
@@ -699,6 +703,7 @@ class World:
             self.V("free_play_state", frame[0], "%s: free play is %r, expected %r" % (frame[0], got, want_free))
         L.free = got
         if not got:
+            self.persist_expiry_lost = False      # enable_credit_play configured the variable again
             self.check_units_sane("toggle")
         # a toggle inserts no money and starts no player
         L.B = self.expect_balance({L.B}, "unexplained_change", "toggle", "%s must not change the balance" % frame[0])
@@ -795,12 +800,14 @@ class World:
         for kind in ("full", "frac"):
             if kind == "full" and any(c is not None and c <= t_nom + TOL for c in L.dl[kind]):
                 L.S = L.S | {F(0)}     # (a timer due at this very instant may already have run: tie)
-            passed = {c for c in L.dl[kind] if c is not None and c < t_nom - TOL}
-            if not passed:
-                continue
             has = L.B > 0 if kind == "full" else (L.B % 1) != 0
-            if not has:
+            if has:
+                continue
+            passed = {c for c in L.dl[kind] if c is not None and c < t_nom - TOL}
+            if passed:
                 L.dl[kind] = (L.dl[kind] - passed) | {None}
+            if any(c is not None and abs(c - t_nom) <= TOL for c in L.dl[kind]):
+                L.dl[kind] = L.dl[kind] | {None}       # tie: the timer has run already (nothing to clear) or runs next
         if L.game_active or L.free:
             return     # relaxation: nothing is promised about expiry during a game / in free play
         for kind in ("full", "frac"):
@@ -1051,6 +1058,8 @@ class World:
         data = copy.deepcopy(self.disk)
         before = L.B
         age = now - self.last_change_t
+        expiry_lost = self.persist_expiry_lost
+        self.persist_expiry_lost = False
         self.boot(mock_data=data, start_time=now + off)
         L.free = self.sut_free()      # operator setting; its persistence is outside the statement
         L.game_active = False
@@ -1068,7 +1077,10 @@ class World:
             allowed = {before}
         else:
             allowed = {before, F(0)}
-        obs = self.expect_balance(allowed, "reboot", "persist" if F(0) not in allowed else "expired",
+        sig = "persist" if F(0) not in allowed else "expired"
+        if expiry_lost and persist and allowed == {F(0)} and before != 0:
+            sig = "kept beyond persist time after a boot in free play"
+        obs = self.expect_balance(allowed, "reboot", sig,
                                   "reboot after %.0fs off (persist %ss, last change %.0fs before power off)"
                                   % (off, persist, age))
         ctx.probe("reboot_kept" if obs == before and before != 0 else "reboot_dropped")
